@@ -113,6 +113,10 @@ class Ctx:
         self.ds9_text = str(DS9_TEXT)
         self.crtf_text = str(CRTF_TEXT)
         self.fits_table = _fits_table()
+        # option objects held by the caller (inputs of the writers)
+        from astropy.io import fits as _fits
+        self.hdr = _fits.Header([('ORIGIN', 'me'), ('OBSERVER', 'somebody')])
+        self.hdr_dict = {'ORIGIN': 'me', 'TELESCOP': 'none'}
         self.dir = os.path.join(env.scratch(), f'c13_{os.getpid()}_{id(self)}')
         os.makedirs(self.dir, exist_ok=True)
         self._n = 0
@@ -151,6 +155,8 @@ class Ctx:
         for k in ('f_ds9', 'f_crtf', 'f_fits'):
             with open(getattr(self, k), 'rb') as fh:
                 d[k] = hashlib.blake2b(fh.read(), digest_size=12).hexdigest()
+        d['hdr'] = [[str(k), str(v), str(c)] for k, v, c in self.hdr.cards]
+        d['hdr_dict'] = sorted((str(k), str(v)) for k, v in self.hdr_dict.items())
         d['module'] = FP.module_state()
         return d
 
@@ -264,6 +270,8 @@ OPS = {
     'write_ds9': lambda c: [_try(lambda: _write(c, c.list_pix, 'ds9', '.reg')), _try(lambda: _write(c, c.reg['sky_ellipse_excl'], 'ds9', '.ds9'))],
     'write_crtf': lambda c: [_try(lambda: _write(c, c.list_crtf, 'crtf', '.crtf')), _try(lambda: _write(c, c.reg['sky_circle'], 'crtf', '.crtf'))],
     'write_fits': lambda c: [_try(lambda: _write(c, c.list_pix, 'fits', '.fits')), _try(lambda: _write(c, c.reg['ellipse'], 'fits', '.fits'))],
+    'write_fits_header': lambda c: [_try(lambda: _write(c, c.list_pix, 'fits', '.fits', header=c.hdr)),
+                                    _try(lambda: _write(c, c.reg['circle'], 'fits', '.fits', header=c.hdr_dict))],
     'parse_ds9': lambda c: _try(lambda: FP.fp(_R().parse(c.ds9_text, format='ds9'))),
     'parse_crtf': lambda c: _try(lambda: FP.fp(_R().parse(c.crtf_text, format='crtf'))),
     'parse_fits': lambda c: _try(lambda: FP.fp(_R().parse(c.fits_table, format='fits'))),
